@@ -1,5 +1,6 @@
 #!/bin/bash
 # Runs the repository's pinned test suite with the guard off (the tree as it is; the
 # verification hooks live only in an -overlay used by /verif's own builds).
-. /verif/scripts/env.sh
+ROOT=$(cd "$(dirname "$0")/.." && pwd)
+. "$ROOT/scripts/env.sh"
 cd /repo && go test -mod=mod -vet=off -count=1 -timeout 25m ./... 
